@@ -86,11 +86,13 @@ type Gen struct {
 	usedPure    map[string]bool
 	declLine    map[string]int
 	lemmaKey    string
+	skipInvs    bool
+	usedInvs    map[string]bool
 }
 
 func newGen(ctx *Ctx, fn *ssa.Function) *Gen {
 	g := &Gen{ctx: ctx, top: fn, declared: map[string]bool{}, notes: map[string]bool{}, kindCount: map[string]int{},
-		havocCallees: map[string]bool{}, usedContracts: map[string]bool{}, usedTrusted: map[string]bool{}, strLits: map[string]Term{}, usedPure: map[string]bool{}, declLine: map[string]int{}}
+		havocCallees: map[string]bool{}, usedContracts: map[string]bool{}, usedTrusted: map[string]bool{}, strLits: map[string]Term{}, usedPure: map[string]bool{}, declLine: map[string]int{}, usedInvs: map[string]bool{}}
 	g.emit("(declare-fun strlen (Int) Int)")
 	g.emit("(assert (forall ((s Int)) (! (>= (strlen s) 0) :pattern ((strlen s)))))")
 	g.emit("(declare-fun band (Int Int) Int)")
@@ -140,7 +142,7 @@ func (g *Gen) name(prefix string, t Term) Term {
 	}
 	n := g.sym(prefix)
 	g.emit(fmt.Sprintf("(define-fun %s () %s %s)", n, t.Sort, t.S))
-	return Term{S: n, Sort: t.Sort, Lo: t.Lo, Hi: t.Hi}
+	return Term{S: n, Sort: t.Sort, Lo: t.Lo, Hi: t.Hi, Pow2: t.Pow2}
 }
 
 func (g *Gen) nameVal(prefix string, v Val) Val {
@@ -289,6 +291,29 @@ func (g *Gen) havocAll(st *State) {
 	nw := Term{S: w, Sort: SInt}
 	g.assume(boolLit(true), tCmp(">=", nw, st.W))
 	st.W = nw
+	g.assumeGlobalInvs(st)
+}
+
+// assumeGlobalInvs: package invariants over globals hold in every state (they are established by the
+// package initialiser, which is verified, and the globals they mention are written nowhere else — scanned).
+func (g *Gen) assumeGlobalInvs(st *State) {
+	if g.ctx.specs == nil || g.skipInvs {
+		return
+	}
+	for _, inv := range g.ctx.specs.Invs {
+		p := g.ctx.typPkgs[inv.Pkg]
+		if p == nil {
+			continue
+		}
+		ev := &Eval{g: g, st: st, vars: map[string]Val{}, pkg: p.Types}
+		t, err := ev.evalBool(inv.Expr)
+		if err != nil {
+			g.specErrs = append(g.specErrs, fmt.Sprintf("invariant %q: %v", inv.Text, err))
+			continue
+		}
+		g.assume(st.cond, t)
+		g.usedInvs[inv.Pkg+": "+inv.Text] = true
+	}
 }
 
 // mergeStates joins predecessor states; conds are the edge conditions.
